@@ -734,6 +734,9 @@ func (e *Exec) appendSlices(st *State, a, b Val, rt types.Type) Val {
 	}
 	e.sc.Assert(T(SBool, fmt.Sprintf("(forall ((i Int)) (! (= (select %s i) (ite (< i %s) (select %s i) (select %s (- i %s)))) :pattern ((select %s i))))",
 		arr.S, SlcLen(a.T).S, SlcArr(a.T).S, SlcArr(b.T).S, SlcLen(a.T).S, arr.S)))
+	// the same fact seen from the second operand (so that a goal about b[j] finds the appended element)
+	e.sc.Assert(T(SBool, fmt.Sprintf("(forall ((j Int)) (! (=> (<= 0 j) (= (select %s (+ %s j)) (select %s j))) :pattern ((select %s j))))",
+		arr.S, SlcLen(a.T).S, SlcArr(b.T).S, SlcArr(b.T).S)))
 	return Val{T: MkSlc(el, arr, Add(SlcLen(a.T), SlcLen(b.T)), Or(SlcNN(a.T), Gt(SlcLen(b.T), IntLit(0)))), GT: rt, Orig: a.Orig}
 }
 
